@@ -32,7 +32,7 @@
 //! is not generated (result scale rules are the subject of C34/C47).
 use std::sync::Arc;
 
-use arrow::array::{ArrayRef, BooleanArray};
+use arrow::array::ArrayRef;
 use arrow::compute::CastOptions;
 use arrow::datatypes::{DataType, Field, Schema, SchemaRef, TimeUnit};
 use arrow::record_batch::RecordBatch;
@@ -1654,6 +1654,21 @@ impl Property for C23 {
     }
 }
 
-fn known_sig(_case: &Case) -> Option<String> {
-    None
+/// Signatures of known findings (see /verif/known_findings.json):
+/// * `given-false-uncertain-or-eq`: `update_ranges(.., FALSE)` on a conjunction or on an `=` comparison:
+///   `propagate_comparison` answers `None` ("infeasible") for an uncertain parent and for `Eq` under FALSE,
+///   although its own comments say that nothing can be propagated there.
+fn known_sig(case: &Case) -> Option<String> {
+    match case {
+        Case::Expr(c) => {
+            if c.given_false {
+                let single_non_eq = matches!(&c.tree, E::Cmp { op, .. } if EXPR_CMP[pick_index((*op as u16) << 8, EXPR_CMP.len())] != Operator::Eq);
+                if !single_non_eq {
+                    return Some("given-false-uncertain-or-eq".into());
+                }
+            }
+            None
+        }
+        _ => None,
+    }
 }
